@@ -220,7 +220,7 @@ package resolve
 //@   trusted effect summary: sets the __skipErrors marker on the parent items
 
 //@ decl stable FetchItem.Fetch
-//@ decl stable result.batchStats by Loader.prepareBatchEntityFetch
+//@ decl stable result.batchStats by Loader.prepareBatchEntityFetch, Loader.renderEntryRepresentations
 //@ decl stable FetchDependencies.FetchID
 //@ decl stable FetchDependencies.DependsOnFetchIDs
 //@ decl stableelems int
